@@ -95,3 +95,88 @@ Theorem c11_routes_always_ok :
 Proof. exact SimRel.c11_routes_always_ok. Qed.
 Print Assumptions c11_routes_always_ok.
 
+
+(* ---------- the overflow bound of the fourth clause for the whole renderer (Proofs/OverflowBound.v): pchain = largest total prefix width of a chain of nested blocks, cwb = widest character ---------- *)
+From H2T Require Import Base Tagged Wrap Sub Css Dom Render Api CssParse Proofs.CssTotal Proofs.WrapInv Proofs.RenderWidth Proofs.Conserve Proofs.Footnotes Proofs.AnnBalance Proofs.RenderConserve Proofs.OptionRel Proofs.Compose Proofs.RenderTotal Proofs.FragStream Proofs.SimRel Proofs.Prune Proofs.OverflowBound.
+Theorem c11_overflow_width_bound :
+  forall (d : deco) (mw : N) (o : ropts) (L width : N) (tree : rnode) (s : subr),
+       ol_prefix_monotone d ->
+       ol_prefix_sat d ->
+       (o_footnotes o = true -> o_wrap_links o = true) ->
+       no_table tree = true ->
+       RenderWidth.tree_ok (o_footnotes o) L tree = true ->
+       render_tree d mw o width tree = Ok s ->
+       forall ls : list rline,
+       sub_into_lines s = Ok ls ->
+       forall r : rline, In r ls -> rline_width r <= N.max width (overflow_bound d mw o L tree).
+Proof. exact OverflowBound.c11_overflow_width_bound. Qed.
+Print Assumptions c11_overflow_width_bound.
+
+Theorem c11_overflow_width_bound_chain :
+  forall (d : deco) (mw : N) (o : ropts) (L width : N) (tree : rnode) (s : subr),
+       ol_prefix_monotone d ->
+       ol_prefix_sat d ->
+       (o_footnotes o = true -> o_wrap_links o = true) ->
+       no_table tree = true ->
+       RenderWidth.tree_ok (o_footnotes o) L tree = true ->
+       render_tree d mw o width tree = Ok s ->
+       forall ls : list rline,
+       sub_into_lines s = Ok ls ->
+       forall r : rline,
+       In r ls ->
+       rline_width r <=
+       N.max width (pchain d tree + N.max (N.max mw 5) (N.max (cwb d tree) (if o_footnotes o then L else 0))).
+Proof. exact OverflowBound.c11_overflow_width_bound_chain. Qed.
+Print Assumptions c11_overflow_width_bound_chain.
+
+Theorem c11_overflow_width_bound_spec :
+  forall (d : deco) (mw : N) (o : ropts) (width : N) (tree : rnode) (s : subr),
+       ol_prefix_monotone d ->
+       ol_prefix_sat d ->
+       (o_footnotes o = true -> o_wrap_links o = true) ->
+       no_table tree = true ->
+       RenderWidth.tree_ok (o_footnotes o) 2 tree = true ->
+       cwb d tree <= 2 ->
+       render_tree d mw o width tree = Ok s ->
+       forall ls : list rline,
+       sub_into_lines s = Ok ls ->
+       forall r : rline, In r ls -> rline_width r <= N.max width (pchain d tree + N.max mw 5).
+Proof. exact OverflowBound.c11_overflow_width_bound_spec. Qed.
+Print Assumptions c11_overflow_width_bound_spec.
+
+Theorem c11_lines_from_read_overflow_bound :
+  forall (inline_styles : list (text * text) -> res (list styledecl))
+         (doc_rules : list node -> res (list ruleset)) (c : config) (doc : list node) 
+         (w L : N) (tree : rnode) (ls : list tline),
+       ol_prefix_monotone (c_deco c) ->
+       ol_prefix_sat (c_deco c) ->
+       c_overflow c = true ->
+       (c_footnotes c = true -> c_wrap_links c = true) ->
+       to_render_tree inline_styles doc_rules c doc = Ok tree ->
+       no_table tree = true ->
+       RenderWidth.tree_ok (c_footnotes c) L tree = true ->
+       lines_from_read inline_styles doc_rules c doc w = Ok ls ->
+       forall l : tline,
+       In l ls ->
+       tl_width_raw l <= N.max w (overflow_bound (c_deco c) (c_min_wrap c) (render_options c) L tree).
+Proof. exact OverflowBound.c11_lines_from_read_overflow_bound. Qed.
+Print Assumptions c11_lines_from_read_overflow_bound.
+
+Theorem c11_lines_from_read_overflow_spec :
+  forall (inline_styles : list (text * text) -> res (list styledecl))
+         (doc_rules : list node -> res (list ruleset)) (c : config) (doc : list node) 
+         (w : N) (tree : rnode) (ls : list tline),
+       ol_prefix_monotone (c_deco c) ->
+       ol_prefix_sat (c_deco c) ->
+       c_overflow c = true ->
+       (c_footnotes c = true -> c_wrap_links c = true) ->
+       to_render_tree inline_styles doc_rules c doc = Ok tree ->
+       no_table tree = true ->
+       RenderWidth.tree_ok (c_footnotes c) 2 tree = true ->
+       cwb (c_deco c) tree <= 2 ->
+       lines_from_read inline_styles doc_rules c doc w = Ok ls ->
+       forall l : tline,
+       In l ls -> tl_width_raw l <= N.max w (pchain (c_deco c) tree + N.max (c_min_wrap c) 5).
+Proof. exact OverflowBound.c11_lines_from_read_overflow_spec. Qed.
+Print Assumptions c11_lines_from_read_overflow_spec.
+
